@@ -745,18 +745,9 @@ func (f *SQLFormatter) formatExpression(expr ast.Expression) error {
 		// Handle string literals with proper quoting
 		switch e.Type {
 		case "string", "STRING":
-			// Escape single quotes in the string value and wrap in quotes
-			// Use type assertion for efficiency instead of fmt.Sprintf
-			var strVal string
-			if str, ok := e.Value.(string); ok {
-				strVal = str
-			} else {
-				strVal = fmt.Sprintf("%v", e.Value)
-			}
-			escaped := strings.ReplaceAll(strVal, "'", "''")
-			f.builder.WriteString("'")
-			f.builder.WriteString(escaped)
-			f.builder.WriteString("'")
+			// Quote and escape (quotes, backslashes, newlines) exactly as the AST serialiser does,
+			// so that the output can be parsed again
+			f.builder.WriteString(e.SQL())
 		case "null", "NULL":
 			f.writeKeyword("NULL")
 		default:
